@@ -140,6 +140,9 @@ def nextEntry (w : World) (named : Path) : List Name → Option (Info × List Na
 
 def dirSizeFuel : Nat := 64
 
+/-- the largest amount a 32-bit signed length field can announce -/
+def maxAnnounce : Nat := 2 ^ 31 - 1
+
 def walkSize (w : World) : Nat → Path → Nat
   | 0, _ => 0
   | fuel + 1, p =>
@@ -209,7 +212,7 @@ def step (cfg : Cfg) (w : World) (st : State) (r : Req) : World × State × Out 
     (w, st, ⟨statFileResult (statInfo w (cleanRequest raw)), false⟩)
   | .openFile raw =>
     let p := cleanRequest raw
-    if p.getLast? == some closeFileName then
+    if p == [closeFileName] then          -- only the reserved path /CLOSEFILE itself
       (w, { st with ro := none, cdSectorSize := if st.ro.isSome then 0 else st.cdSectorSize },
         ⟨openFileResult (some (0, 0)), false⟩)
     else
@@ -230,13 +233,15 @@ def step (cfg : Cfg) (w : World) (st : State) (r : Req) : World × State × Out 
           else defaultSectorSize
         (w, { st with ro := some ro, cdSectorSize := cd }, ⟨openFileResult (some (size, mtime)), false⟩)
   | .readFile limit off =>
+    -- a read that cannot be started is answered with -1 (nothing was announced yet); the connection goes on
     match st.ro with
-    | none => (w, st, ⟨[], true⟩)
+    | none => (w, st, ⟨readFileResultHdr (neg1 4), false⟩)
     | some ro =>
-      if ro.isDir then (w, st, ⟨[], true⟩) else       -- "is a directory", before anything is announced
+      if ro.isDir then (w, st, ⟨readFileResultHdr (neg1 4), false⟩) else
       if off ≥ roSize w ro then (w, st, ⟨readFileResultHdr 0, false⟩) else   -- at or after the end: an empty answer, no seek at all
-      if !roSeekOk ro off then (w, st, ⟨[], true⟩) else
-      match roRead w ro off limit with
+      if !roSeekOk ro off then (w, st, ⟨readFileResultHdr (neg1 4), false⟩) else
+      -- the announced amount is an int32: a bigger request gets what can be announced
+      match roRead w ro off (min limit maxAnnounce) with
       | none => (w, st, ⟨[], true⟩)
       | some data => (w, st, ⟨readFileResultHdr data.length ++ data, false⟩)
   | .readFileCritical limit off =>
@@ -287,7 +292,9 @@ def step (cfg : Cfg) (w : World) (st : State) (r : Req) : World × State × Out 
             (w, { st with wo := some ⟨ino⟩ }, ⟨createFileResult true, false⟩)
           | some _ => (w, st, ⟨createFileResult false, false⟩)
         | _, _ => (w, st, ⟨createFileResult false, false⟩)
-  | .writeFile _ payload =>
+  | .writeFile announced payload =>
+    -- the written amount is reported as an int32: a payload that could not be reported is refused as a whole
+    if announced > maxAnnounce then (w, st, ⟨writeFileResult none, false⟩) else
     if !cfg.allowWrite then (w, st, ⟨writeFileResult none, false⟩) else
     match st.wo with
     | none => (w, st, ⟨writeFileResult none, false⟩)
@@ -345,7 +352,11 @@ def step (cfg : Cfg) (w : World) (st : State) (r : Req) : World × State × Out 
       | some _ => (w, st, ⟨mkdirResult false, false⟩)
     | _ => (w, st, ⟨mkdirResult false, false⟩)
   | .getDirSize raw =>
-    (w, st, ⟨getDirSizeResult (walkSize w dirSizeFuel (cleanRequest raw)), false⟩)
+    let p := cleanRequest raw
+    -- only an existing directory has a size to report
+    match (if p.all nameOk then w.stat p else none) with
+    | some (_, .dir _) => (w, st, ⟨getDirSizeResult (walkSize w dirSizeFuel p), false⟩)
+    | _ => (w, st, ⟨getDirSizeResult (neg1 8), false⟩)
 
 /-- the loop of serveConn over the bytes a client sends; `fuel` ≥ number of requests.
     Returns the final world and state, everything sent, and the number of input bytes consumed. -/
@@ -395,7 +406,7 @@ def ledgerEv (cfg : Cfg) (w : World) (st : State) (r : Req) : Nat × Nat :=
       | some _ => (0, 0)
   | .openFile raw =>
     let p := PathStr.cleanRequest raw
-    if p.getLast? == some closeFileName then (0, had st.ro.isSome)
+    if p == [closeFileName] then (0, had st.ro.isSome)
     else match openRO cfg w p with
       | none => (0, had st.ro.isSome)
       | some _ => (1, had st.ro.isSome)
